@@ -94,6 +94,17 @@ def make_spec(run_seed, tier, prop, choice_weights=None, forced_prob=0.0, branch
             spec["forced"] = {"mode": "values", "values": [rnd.choice([-50.0, 0.0, 1.0, 7.0, 15.0, 60.0, 200.0])]}
         else:
             spec["forced"] = {"mode": mode, "which": rnd.randrange(0, 6)}
+            if mode == "tie" and rs.random() < 0.6:
+                # an exact tie that every way of summing masses sees as a tie: the first unit of a block that starts from zero
+                # heavy-atom mass (prefix [H]); '>' continues there, '>=' would stop
+                import re as _re
+
+                m = _re.match(r"^([^{]+)\{", spec["text"])
+                if m and not any(x in m.group(1) for x in ("[<", "[>", "[$")) and "entry" not in spec:
+                    spec["text"] = "[H]" + spec["text"][m.end(1):]
+                    spec["forced"]["which"] = 0
+                    spec["tags"] = sorted(set(spec["tags"]) | {"zero_mass_start"})
+                    spec.pop("warmup", None)
     return spec
 
 
